@@ -344,7 +344,7 @@ reg(
     offline="c15_arith",
     profiles={"quick": ["checked"], "thorough": ["checked", "release"]},
     floor={"quick": 100000, "thorough": 5000000},
-    assumptions=["float modulo may follow fmod, floored or IEEE-remainder convention; float division by zero may be an error or the IEEE result", "ceil/floor/round are asserted for floats within the i64 range only; integer operands and round with decimal places are counted, not asserted"],
+    assumptions=["float modulo may follow fmod, floored or IEEE-remainder convention; a zero divisor of any numeric kind (0, 0.0, -0.0, '0', '0.0') must be an error", "ceil/floor/round are asserted for floats within the i64 range only; integer operands and round with decimal places are counted, not asserted"],
     level_text=("Boundary-exhaustive and random operands judged by an independent arithmetic (Python big integers / Fractions / IEEE doubles). Right level: wrap-around and tie errors live at boundaries the suite never multiplies; "
                 "the release build is needed to observe wrapping, the checked build to observe overflow panics."),
     level_note="The offline checker (checkers/c15_arith.py) is trusted.",
@@ -631,9 +631,21 @@ def c12_post(cid, tier, seed, jobs, rundir, merged, notes, inconclusive, api):
     if tier != "thorough":
         return
     sanitizer_pass(cid, "c12", "address", seed, jobs, rundir, merged, notes, inconclusive, api)
+    # Miri over a small sample of data through every view and conversion (kstring's inline-string unsafe code)
+    miri_pass(cid, [0, 1], ["--miri-sample"], rundir, merged, notes, inconclusive, api)
+
+
+_c11_post_plain = c11_post
+
+
+def c11_post_thorough(cid, tier, seed, jobs, rundir, merged, notes, inconclusive, api):
+    _c11_post_plain(cid, tier, seed, jobs, rundir, merged, notes, inconclusive, api)
+    if tier == "thorough":
+        miri_pass(cid, [0, 1], ["--miri-sample"], rundir, merged, notes, inconclusive, api)
 
 
 CHECKS["C20"]["post"] = c20_post
 CHECKS["C02"]["post"] = c02_post
 CHECKS["C01"]["post"] = c01_post
 CHECKS["C12"]["post"] = c12_post
+CHECKS["C11"]["post"] = c11_post_thorough
